@@ -2292,7 +2292,9 @@ func main() {
 	}
 	dfCases, dfEvals := familyDecodeFrom(chk)
 	mlCases := familyMemberless(chk)
+	piCases := familyPlatformInts(chk)
 	cov := map[string]interface{}{
+		"platform_sized_integers": map[string]interface{}{"cases": piCases, "what": "Go's int and uint (64 bits on this platform) as source and destination next to the sized kinds of the same signedness, alone and in slices, maps and structs, boundary values, both directions"},
 		"memberless_structs": map[string]interface{}{"cases": mlCases, "what": "struct types without members (struct{}, the set idiom map[K]struct{}, marker members) alone, in slices, maps and structs: conversion into the same / widened type succeeds, the way back recovers the source"},
 		"decode_from_histories": map[string]interface{}{"histories": dfCases, "calls": dfEvals,
 			"what": "conversion.DecodeFrom (the entry point bus/proxy.go uses for replies) over 4 wire/destination type pairs holding maps and slices, every ordered history of <= 3 sources out of 3-5 per pair, each call into a fresh destination; the result of every call must be what ConvertFrom gives for that source alone"},
@@ -2325,7 +2327,7 @@ func main() {
 		"maps are converted by the implementation INTO the existing map (as encoding/json does) and ConvertFrom documents that the destination 'can be populated with default values': a key that only the old destination held is therefore allowed to stay, with whatever value (its survival also shows on the way back, where extra keys are accepted for the same reason); what is judged is that every key of the source is there with the source's value and that no key appears from nowhere. " +
 			"Below a slice element or a map entry nothing is assumed about reuse of the old element: members without counterpart and old map keys are not judged there. Slices have no such latitude: a slice must have exactly the source's elements",
 		"a destination member without counterpart in the source is left as it was (fresh destination: zero); this is how 'structs matched by field name' is made observable for names that are NOT the same name (names/one-each-side): if the implementation matched them, the member would change or the pair would be refused",
-		"not judged (the statement is silent): narrowing and cross-signedness integer pairs, struct members without a counterpart, the content of struct members that are not exported, nil versus empty containers, NaN payload bits, int / uint / pointer / interface kinds",
+		"not judged (the statement is silent): narrowing and cross-signedness integer pairs, struct members without a counterpart, the content of struct members that are not exported, nil versus empty containers, NaN payload bits, pointer / interface kinds (int and uint: family platform_sized_integers, same-signedness pairs only)",
 		"struct members are matched by name with letter case ignored (the repository's TestStruct expects exported E to receive unexported e); not in the universe: an unexported (or blank) destination member that HAS a counterpart in the source, and structs with two members equal up to letter case",
 		"conversion.DecodeFrom is exercised with call histories over 4 type pairs only (family decode_from_histories: what an earlier call leaves behind must not reach a later one); its codec half is C02/C03's business. EncodeInto is not exercised (no caller in the repository)",
 	}
